@@ -199,7 +199,7 @@ def replay(o):
 
 
 INFO = dict(
-    assumptions=A.S_COMMON + [A.A4], trusted_base=A.TRUSTED, min_obligations=80, level="other",
+    assumptions=A.S_COMMON + [A.A4, A.A11, A.A12], trusted_base=A.TRUSTED, min_obligations=80, level="other",
     explanation="C12: Curve.fit_points / LeastSquare.fit_function / Linalg.lstsq with symbolic data vectors on concrete knot vectors (and concrete weights): the "
                 "map Z -> Q is extracted as an exact matrix M and checked against the spec collocation matrix B: B^T(B M - I) == 0, M B == I, B M == I when "
                 "len(points) == npts; default and explicit node sets; fewer points rejected; Curve.fit_function reproduces a symbolic element of the space.",
